@@ -22,11 +22,19 @@ import lf_common as L
 
 THEOREMS = ["C14_persistent_map", "C14_get", "C14_update", "C14_add", "C14_discard", "C14_identity_seq",
             "C14_identity_threads", "C14_pinned_get_refuted", "C14_split_add_refuted", "C14_example",
-            "C14_threads_example"]
+            "C14_threads_example", "C14_observer_during_write", "C14_observer_example"]
 
 NKEYS = 4
 KINDS = ["sm_small", "sm_props", "cd", "aas"]
 NVARIANTS = 6
+
+
+# how the store directory is named and reached: (absolute | relative to the working directory, name).
+# The source URI is the directory path pasted behind "file://localhost/", so URL-significant characters
+# and relative paths must survive the way to LocalFileBackend and back.
+DIR_SHAPES = [("abs", "store"), ("abs", "plant#1"), ("rel", "rel_store"), ("abs", "what?really=1&x"),
+              ("abs", "pct%20enc%2Fx%23"), ("rel", "./dot/rel#x"), ("abs", "with space"),
+              ("abs", "\u00fcn\u00ef \u00e7\u00f8d\u00e9#?"), ("rel", "sub/deep?dir"), ("rel", "file:name;v=1")]
 
 
 def ids_of(base):
@@ -66,11 +74,21 @@ class World:
     """the SDK side of a history: two store instances on one scratch directory, the client's live
     objects (numbered like the model numbers them) and the reference dict of the oracle"""
 
-    def __init__(self, idbase):
+    def __init__(self, idbase, dshape=0):
         from basyx.aas.backend import local_file
         self.lf = local_file
-        self.dir = L.scratch_dir("c14")
+        self.base = L.scratch_dir("c14")
+        self.cwd = None
+        mode, name = DIR_SHAPES[dshape % len(DIR_SHAPES)]
+        os.makedirs(os.path.join(self.base, name))
+        if mode == "rel":
+            self.cwd = os.getcwd()
+            os.chdir(self.base)
+            self.dir = name
+        else:
+            self.dir = os.path.join(self.base, name)
         self.ids = ids_of(idbase)
+        self.bound = {}     # oracle: oid -> key the object is bound to by the history (None: unbound)
         self.stores = [local_file.LocalFileObjectStore(self.dir), local_file.LocalFileObjectStore(self.dir + "/")]
         self.live = {}      # oid -> object
         self.next = 0
@@ -83,7 +101,19 @@ class World:
 
     def close(self):
         self.live.clear()
-        L.rm_scratch(self.dir)
+        if self.cwd is not None:
+            os.chdir(self.cwd)
+        L.rm_scratch(self.base)
+
+    def stray_files(self):
+        """files below the scratch base that are not inside the store directory"""
+        root = os.path.realpath(os.path.join(self.base, self.dir) if self.cwd is not None else self.dir)
+        res = []
+        for dp, dn, fn in os.walk(self.base):
+            for f in fn:
+                if os.path.realpath(dp) != root:
+                    res.append(os.path.relpath(os.path.join(dp, f), self.base))
+        return res
 
     def tok(self, obj):
         kv = self.rev.get(L.canon(obj))
@@ -126,6 +156,7 @@ class World:
         if name == "New":
             _, k, v = op
             self.live[self.next] = build(KINDS[k], self.ids[k], v)
+            self.bound[self.next] = None
             self.next += 1
             return [0]
         if name == "Add":
@@ -137,11 +168,16 @@ class World:
             except KeyError:
                 if obj.id not in M:
                     self.flag("add", "spurious-keyerror", "add of an id that is not stored raised KeyError")
+                if self.src_key(obj) != self.bound.get(x):
+                    self.flag("add", "rejected-object-bound", "a rejected add() changed the object's source to {!r}: "
+                              "the object that was not stored is now bound to the stored document".format(
+                                  obj.source.rsplit("/", 1)[-1]))
                 return [2, k]
             if obj.id in M:
                 self.flag("add", "duplicate-accepted", "add of an id that is already stored succeeded")
             M[obj.id] = c
             self.rep[(i, k)] = x
+            self.bound[x] = k
             if obj.source == "":
                 self.flag("add", "no-source", "added object has no source")
             return [1, k, v]
@@ -168,6 +204,7 @@ class World:
                 self.next += 1
                 self.live[o] = obj
             self.rep[(i, k)] = o
+            self.bound[o] = k
             return [3, k, o, self.tok(obj)]
         if name == "Contains":
             _, i, k = op
@@ -206,6 +243,7 @@ class World:
             if obj.id not in M:
                 self.flag("discard", "missing-id-accepted", "discard of an id that is not stored succeeded")
             M.pop(obj.id, None)
+            self.bound[x] = None
             for key in [kk for kk in self.rep if kk[1] == k]:
                 del self.rep[key]
             if obj.source != "":
@@ -219,33 +257,43 @@ class World:
             sk = self.src_key(obj)
             v, c = self.tok(obj), L.canon(obj)
             self.via(obj, op[1]).commit()
+            bk = self.bound.get(op[1])      # the oracle's own reckoning, not the object's source attribute
+            if bk is not None:
+                M[self.ids[bk]] = c
             if sk is None:
                 return [0]
-            M[self.ids[sk]] = c
             return [10, sk, v]
         if name == "Update":
             obj = self.live[op[1]]
             sk = self.src_key(obj)
+            bk = self.bound.get(op[1])
+            c0 = L.canon(obj)
             try:
                 self.via(obj, op[1]).update()
             except (FileNotFoundError, KeyError):
-                if sk is not None and self.ids[sk] in M:
+                if bk is not None and self.ids[bk] in M:
                     self.flag("update", "stored-id-missing", "update() of an object whose document exists failed")
                 return [5, sk if sk is not None else 98]
+            if bk is None:
+                if L.canon(obj) != c0:
+                    self.flag("update", "unbound-object-changed", "update() changed an object that the history never "
+                                                                  "bound to a document")
+            elif self.ids[bk] not in M:
+                self.flag("update", "vanished-document-read", "update() succeeded although the document is gone")
+            elif L.canon(obj) != M[self.ids[bk]]:
+                self.flag("update", "not-refreshed", "update() did not bring the live object to the stored state")
             if sk is None:
                 return [0]
-            if self.ids[sk] not in M:
-                self.flag("update", "vanished-document-read", "update() succeeded although the document is gone")
-            elif L.canon(obj) != M[self.ids[sk]]:
-                self.flag("update", "not-refreshed", "update() did not bring the live object to the stored state")
             return [11, sk, self.tok(obj)]
         if name == "ClearSource":
             self.live[op[1]].source = ""
+            self.bound[op[1]] = None
             for key in [kk for kk, o in self.rep.items() if o == op[1]]:
                 del self.rep[key]
             return [0]
         if name == "Drop":
             del self.live[op[1]]
+            self.bound.pop(op[1], None)
             for key in [kk for kk, o in self.rep.items() if o == op[1]]:
                 del self.rep[key]
             gc.collect()
@@ -301,6 +349,12 @@ class World:
                     self.flag("contains", "by-object-wrong", "`obj in store` through instance {} is {} but the id is "
                               "{}stored".format(i, b, "" if obj.id in self.M else "not "))
             by_obj += row
+            if self.src_key(obj) != self.bound.get(o):
+                self.flag("binding", "source-not-as-history-implies", "a live object's source names document {} but by the "
+                          "history it is bound to {}".format(self.src_key(obj), self.bound.get(o)))
+        stray = self.stray_files()
+        if stray:
+            self.flag("files", "outside-store-directory", "files appeared outside the store directory: {}".format(stray[:3]))
         return by_id, by_obj
 
 
@@ -346,9 +400,9 @@ def gen_op(rng, w):
     return ("Reopen", i)
 
 
-def run_history(idbase, ops=None, rng=None, n=0):
+def run_history(idbase, ops=None, rng=None, n=0, dshape=0):
     """runs given ops, or generates n ops on the fly.  Returns (ops, trace, fail)"""
-    w = World(idbase)
+    w = World(idbase, dshape)
     try:
         done, trace = [], []
         for t in range(len(ops) if ops is not None else n):
@@ -405,10 +459,10 @@ def shrink_ops(ops, pred):
 STEPS = {"get": 4, "add": 3}
 
 
-def run_threads(idbase, pre, progs, sched):
+def run_threads(idbase, pre, progs, sched, dshape=0):
     """pre: sequential ops; progs: [("get",) | ("add", oid)] for thread 0 and 1, both on instance 0
     and key 1; sched: list of 0/1.  Returns (obs, fail)."""
-    w = World(idbase)
+    w = World(idbase, dshape)
     S = L.Sched(timeout=20)
     key = 1
     lf = w.lf
@@ -561,12 +615,200 @@ def coq_sched_case(pre, progs, sched, obs):
         common.coq_list("true" if t else "false" for t in sched), common.coq_z(common.zhash_d(obs, 2)))
 
 
+# ---------------------------------------------------------------- a writer observed at every pause point
+
+WRITER_SCENARIOS = [
+    ("add next to a stored neighbour", [("New", 0, 1), ("Add", 0, 0), ("New", 1, 2)], ("Add", 0, 1)),
+    ("add into an empty store", [("New", 1, 2)], ("Add", 0, 0)),
+    ("rejected duplicate add", [("New", 1, 2), ("Add", 1, 0), ("New", 1, 3)], ("Add", 0, 1)),
+    ("commit of a locally changed object", [("New", 1, 2), ("Add", 0, 0), ("New", 2, 1), ("Add", 1, 1), ("SetVal", 0, 5)],
+     ("Commit", 0)),
+    ("commit through the other instance's replica", [("New", 1, 2), ("Add", 0, 0), ("Get", 1, 1), ("SetVal", 1, 3)],
+     ("Commit", 1)),
+    ("commit after the document was discarded elsewhere",
+     [("New", 1, 2), ("Add", 0, 0), ("Get", 1, 1), ("Discard", 1, 1), ("SetVal", 0, 4)], ("Commit", 0)),
+    ("commit of an unbound object", [("New", 1, 2), ("Add", 0, 0), ("New", 1, 4)], ("Commit", 1)),
+]
+# pause points a write passes (cf. the effect lists of model/Crash.v: exists, encode, open/write/close of the
+# temporary file, replace)
+PAUSES = {"add": ["start", "exists", "encode", "open", "opened", "replace", "replaced"],
+          "add-dup": ["start", "exists"],
+          "commit": ["start", "encode", "open", "opened", "replace", "replaced"],
+          "commit-unbound": ["start"]}
+
+
+def run_writer(idbase, dshape, pre, wop):
+    """One writer thread performs `wop` on the SDK and is parked before os.path.exists, before the
+    encoder, before and after opening the temporary file, before and after os.replace.  At every
+    pause every read view (len, iteration, membership, lookup) is taken through a third instance,
+    through a freshly opened instance and (lock-free views) through the writer's instance.
+    Oracle: at each pause all views show one and the same state, which is the persistent-dict
+    reference either before or after the write, and never goes back.  Returns (labels, kind, fail)."""
+    import builtins
+    w = World(idbase, dshape)
+    S = L.Sched(timeout=20)
+    saved = (os.path.exists, json.dumps, builtins.open, os.replace)
+    try:
+        for op in pre:
+            w.do(tuple(op))
+        before = dict(w.M)
+        obj = w.live[wop[2] if wop[0] == "Add" else wop[1]]
+        if wop[0] == "Add":
+            kind = "add-dup" if obj.id in before else "add"
+            after = dict(before) if obj.id in before else dict(before, **{obj.id: L.canon(obj)})
+        else:
+            bk = w.bound.get(wop[1])
+            kind = "commit" if bk is not None else "commit-unbound"
+            after = dict(before) if bk is None else dict(before, **{w.ids[bk]: L.canon(obj)})
+        root = os.path.realpath(w.dir)
+
+        def inside(path):
+            try:
+                return os.path.realpath(os.path.dirname(os.fspath(path))) == root
+            except TypeError:
+                return False
+
+        def p_exists(path):
+            if inside(path):
+                S.point("exists")
+            return saved[0](path)
+
+        def p_dumps(o, *a, **k):
+            if k.get("cls") is not None:
+                S.point("encode")
+            return saved[1](o, *a, **k)
+
+        def p_open(file, mode="r", *a, **k):
+            if isinstance(file, (str, bytes, os.PathLike)) and any(c in mode for c in "wax+") and inside(file):
+                S.point("open")
+                f = saved[2](file, mode, *a, **k)
+                S.point("opened")
+                return f
+            return saved[2](file, mode, *a, **k)
+
+        def p_replace(a, b, **k):
+            if inside(b):
+                S.point("replace")
+                r = saved[3](a, b, **k)
+                S.point("replaced")
+                return r
+            return saved[3](a, b, **k)
+        os.path.exists, json.dumps, builtins.open, os.replace = p_exists, p_dumps, p_open, p_replace
+        done = {}
+
+        def worker():
+            S.register("w")
+            S.point("start")
+            try:
+                done["out"] = w.do(tuple(wop))
+            except BaseException as e:   # noqa
+                done["exc"] = repr(e)
+            finally:
+                S.finish()
+        t = threading.Thread(target=worker, daemon=True)
+        t.start()
+        fail = None
+        labels = []
+        reached_after = False
+        # readers use a third instance opened before the write and one opened at each pause: neither holds a live
+        # replica (a lookup through an instance that does would refresh - i.e. overwrite - the writer's object)
+        other = w.lf.LocalFileObjectStore(w.dir)
+        mine = w.stores[0]
+
+        def views():
+            fresh = w.lf.LocalFileObjectStore(w.dir)
+            res = []
+            for nm, st, full in (("other instance", other, True), ("fresh instance", fresh, True),
+                                 ("writing instance", mine, False)):
+                v = {"who": nm, "len": len(st), "contains": {i for i in w.ids if i in st}}
+                if full:
+                    v["iter"] = {o.id: L.canon(o) for o in st}
+                    g = {}
+                    for i in w.ids:
+                        try:
+                            g[i] = L.canon(st.get_identifiable(i))
+                        except KeyError:
+                            pass
+                    v["get"] = g
+                res.append(v)
+            return res
+
+        def matches(v, ref):
+            return (v["len"] == len(ref) and v["contains"] == set(ref)
+                    and ("iter" not in v or (v["iter"] == ref and v["get"] == ref)))
+        while True:
+            lab = S.step("w")
+            if lab is None:
+                break
+            labels.append(lab)
+            # the writer is parked at its next pause point (or has finished): observe
+            try:
+                vs = views()
+            except Exception as e:
+                fail = fail or ("C14:observer:{}:read-raises".format(kind),
+                                "a reader raised {}: {} while the writer was paused after {!r}".format(
+                                    type(e).__name__, e, lab))
+                continue
+            gc.collect()
+            ok_before = all(matches(v, before) for v in vs)
+            ok_after = all(matches(v, after) for v in vs)
+            if not (ok_before or ok_after):
+                v = next(v for v in vs if not matches(v, before) and not matches(v, after))
+                what = "len-disagrees" if (v["len"] != len(v.get("iter", v["contains"]))) else "views-not-a-map-state"
+                fail = fail or ("C14:observer:{}:{}".format(kind, what),
+                                "writer paused after {!r}: through the {} len()={}, membership={} ids, iteration={} objects; "
+                                "the persistent map holds {} (before) / {} (after) objects".format(
+                                    lab, v["who"], v["len"], len(v["contains"]), len(v.get("iter", v["contains"])),
+                                    len(before), len(after)))
+            elif reached_after and not ok_after:
+                fail = fail or ("C14:observer:{}:went-back".format(kind), "after {!r} readers see the old state again".format(lab))
+            if ok_after and not ok_before:
+                reached_after = True
+        t.join(20)
+        if "exc" in done:
+            fail = fail or ("C14:observer:{}:writer-raised".format(kind), done["exc"])
+        if w.fail:
+            fail = fail or w.fail
+        if before != after and not reached_after:
+            fail = fail or ("C14:observer:{}:write-never-visible".format(kind), "the write returned but no reader sees it")
+        return labels, kind, fail
+    finally:
+        os.path.exists, json.dumps, builtins.open, os.replace = saved
+        w.close()
+
+
+# ---------------------------------------------------------------- directed histories
+
+def directed_histories():
+    """short scripts around the situations random histories reach rarely: a rejected add of a different
+    object with a stored id followed by commit()/update() of the rejected object and a read-back through
+    another instance; stale replicas; discard through the other instance; re-opened instances"""
+    res = []
+    for i in (0, 1):
+        for j in (0, 1):
+            for k in (0, 1):
+                r = 1 - j
+                res.append([("New", k, 1), ("Add", i, 0), ("New", k, 2), ("Add", j, 1), ("Commit", 1), ("Get", r, k),
+                            ("Iter", j), ("Update", 0), ("Get", i, k)])
+                res.append([("New", k, 1), ("Add", i, 0), ("New", k, 2), ("Add", j, 1), ("Update", 1), ("SetVal", 1, 4),
+                            ("Commit", 1), ("Get", i, k), ("Reopen", r), ("Get", r, k)])
+                res.append([("New", k, 1), ("Add", i, 0), ("Get", j, k), ("SetVal", 1, 3), ("Commit", 1), ("Update", 0),
+                            ("Get", i, k), ("Len", i), ("Iter", r)])
+                res.append([("New", k, 1), ("Add", i, 0), ("Get", j, k), ("Discard", j, 1), ("Contains", i, k), ("Get", i, k),
+                            ("Update", 0), ("Commit", 0), ("Get", j, k), ("Add", j, 0)])
+                res.append([("New", k, 1), ("Add", i, 0), ("Reopen", i), ("Get", i, k), ("SetVal", 0, 5), ("Commit", 0),
+                            ("Get", i, k), ("Update", 1), ("Discard", r, 1), ("Update", 0), ("Len", j)])
+    return res
+
+
 # ---------------------------------------------------------------- entry points
 
 def _hist_job(args):
-    idbase, seed, n = args
+    idbase, seed, n, dshape, ops = args
     import random
-    return run_history(idbase, rng=random.Random(seed), n=n)
+    if ops is not None:
+        return run_history(idbase, ops=ops, dshape=dshape)
+    return run_history(idbase, rng=random.Random(seed), n=n, dshape=dshape)
 
 
 def run(chk):
@@ -575,36 +817,43 @@ def run(chk):
     nhist, maxlen = (350, 20) if chk.tier == "quick" else (5000, 28)
     jobs = []
     corpus = os.path.join(common.VERIF, "corpus", "C14")
-    replays = []
     if os.path.isdir(corpus):
         for fn in sorted(os.listdir(corpus)):
             c = json.load(open(os.path.join(corpus, fn)))
-            replays.append(run_history(c["idbase"], ops=c["ops"]))
+            jobs.append((c["idbase"], 0, 0, c.get("dshape", 0), [tuple(o) for o in c["ops"]]))
+    for n, ops in enumerate(directed_histories()):
+        jobs.append((n % len(L.IDS), 0, 0, n % len(DIR_SHAPES), ops))
+    ndirected = len(jobs)
     for _ in range(nhist):
-        jobs.append((rng.randrange(len(L.IDS)), rng.getrandbits(48), rng.randint(6, maxlen)))
+        jobs.append((rng.randrange(len(L.IDS)), rng.getrandbits(48), rng.randint(6, maxlen),
+                     rng.randrange(len(DIR_SHAPES)), None))
     import multiprocessing
     with multiprocessing.get_context("fork").Pool(8) as pool:
-        results = replays + pool.map(_hist_job, jobs, chunksize=8)
-    idbases = [None] * len(replays) + [j[0] for j in jobs]
+        results = pool.map(_hist_job, jobs, chunksize=8)
     terms = []
     for idx, (ops, trace, fail) in enumerate(results):
-        chk.seen(ops, nontrivial=len(ops) >= 3)
+        ib, ds = jobs[idx][0], jobs[idx][3]
+        chk.seen((ops, ds), nontrivial=len(ops) >= 3)
         chk.count("len={}".format(min(len(ops), 20) // 5 * 5))
+        chk.count("directory={}:{}".format(*DIR_SHAPES[ds % len(DIR_SHAPES)]))
         for o, t in zip(ops, trace):
             chk.count("op=" + o[0])
             chk.count("answer=" + {0: "none", 1: "added", 2: "duplicate-KeyError", 3: "object", 5: "missing-KeyError",
                                    6: "bool", 7: "len", 8: "list", 9: "discarded", 10: "committed", 11: "updated"}
                       .get(t[0][0], "other"))
-        if fail and idbases[idx] is not None:
+        if fail:
             (sig, msg), at = fail
-            ib = idbases[idx]
-            small = shrink_ops(ops[:at + 1], lambda o: run_history(ib, ops=o)[2] is not None)
-            f2 = run_history(ib, ops=small)[2]
+            small = shrink_ops(ops[:at + 1], lambda o: run_history(ib, ops=o, dshape=ds)[2] is not None)
+            ds2 = ds
+            if run_history(ib, ops=small, dshape=0)[2] is not None:
+                ds2 = 0
+            f2 = run_history(ib, ops=small, dshape=ds2)[2]
             sig, msg = f2[0] if f2 else (sig, msg)
-            chk.fail(sig, msg, {"idbase": ib, "ops": small, "how": "tools/c14.py run_history(idbase, ops=ops)"})
+            chk.fail(sig, msg, {"idbase": ib, "dshape": ds2, "directory": list(DIR_SHAPES[ds2 % len(DIR_SHAPES)]), "ops": small,
+                                "how": "tools/c14.py run_history(idbase, ops=ops, dshape=dshape)"})
         terms.append(coq_case(ops, trace))
-        if len(chk.samples) < 3 and len(ops) >= 8:
-            chk.samples.append({"ops": ops, "last_step_observation": trace[-1]})
+        if len(chk.samples) < 3 and len(ops) >= 8 and idx >= ndirected:
+            chk.samples.append({"ops": ops, "directory": DIR_SHAPES[ds % len(DIR_SHAPES)], "last_step_observation": trace[-1]})
     bad, errs = common.run_mismatch_shards("C14", PRELUDE, terms, "check_case", shard=250)
     n1 = common.run_mismatch_shards.evaluated - len(bad)
     for e in errs:
@@ -612,28 +861,32 @@ def run(chk):
     if bad:
         idx = bad[0]
         ops = results[idx][0]
-        ib = idbases[idx] if idbases[idx] is not None else 0
+        ib, ds = jobs[idx][0], jobs[idx][3]
 
         def still(o):
-            o2, tr, _ = run_history(ib, ops=o)
+            o2, tr, _ = run_history(ib, ops=o, dshape=ds)
             b, e = common.run_mismatch_shards("C14s", PRELUDE, [coq_case(o2, tr)], "check_case")
             return bool(b or e)
         small = shrink_ops(ops, still)
-        o2, tr, _ = run_history(ib, ops=small)
+        o2, tr, _ = run_history(ib, ops=small, dshape=ds)
         model = common.coq_eval("C14", PRELUDE, "trace init " + common.coq_list(coq_op(o) for o in o2))
-        chk.tie_broken("correspondence", {"n_disagreements": len(bad), "idbase": ib, "ops": o2, "sdk_trace": tr,
+        chk.tie_broken("correspondence", {"n_disagreements": len(bad), "idbase": ib, "dshape": ds, "ops": o2, "sdk_trace": tr,
                                           "model_trace": model,
-                                          "rows": "per step: answer; live objects (oid,key,content,source); directory; `id in store` per instance x id; per live object [oid, `obj in store` per instance]"})
+                                          "rows": "per step: answer; live objects (oid,key,content,source); directory; "
+                                                  "`id in store` per instance x id; per live object [oid, `obj in store` "
+                                                  "per instance]"})
+    chk.cov["directed_histories"] = ndirected
     # ---- threads
     tcases = thread_cases(chk.tier)
     tterms = []
-    for (si, pre, progs, sched) in tcases:
-        obs, fail = run_threads(0, pre, progs, sched)
+    for n, (si, pre, progs, sched) in enumerate(tcases):
+        ds = n % len(DIR_SHAPES)
+        obs, fail = run_threads(0, pre, progs, sched, dshape=ds)
         chk.seen(("threads", si, progs, sched), nontrivial=True)
         chk.count("threads={}/{}".format(progs[0][0], progs[1][0]))
         if fail:
             chk.fail(fail[0], fail[1], {"scenario": SCENARIOS[si][0], "pre": pre, "progs": progs, "schedule": sched,
-                                        "how": "tools/c14.py run_threads(0, pre, progs, schedule)"})
+                                        "dshape": ds, "how": "tools/c14.py run_threads(0, pre, progs, schedule, dshape)"})
         tterms.append(coq_sched_case(pre, progs, sched, obs))
     bad2, errs2 = common.run_mismatch_shards("C14t", PRELUDE, tterms, "check_sched", shard=250)
     chk.traces = n1 + common.run_mismatch_shards.evaluated - len(bad2)
@@ -641,13 +894,31 @@ def run(chk):
         chk.tie_broken("correspondence-run", e)
     if bad2:
         si, pre, progs, sched = tcases[bad2[0]]
-        obs, _ = run_threads(0, pre, progs, sched)
+        ds = bad2[0] % len(DIR_SHAPES)
+        obs, _ = run_threads(0, pre, progs, sched, dshape=ds)
         model = common.coq_eval("C14t", PRELUDE, "sched_obs {} {} 0 1 {} {}".format(
             coq_prog(progs[0]), coq_prog(progs[1]), common.coq_list(coq_op(o) for o in pre),
             common.coq_list("true" if t else "false" for t in sched)))
         chk.tie_broken("correspondence-threads", {"n_disagreements": len(bad2), "scenario": SCENARIOS[si][0], "pre": pre,
-                                                  "progs": progs, "schedule": sched, "sdk": obs, "model": model})
+                                                  "progs": progs, "schedule": sched, "dshape": ds, "sdk": obs, "model": model})
     chk.cov["thread_interleavings"] = len(tcases)
+    # ---- a writer observed at every pause point
+    nobs = 0
+    for wi, (desc, pre, wop) in enumerate(WRITER_SCENARIOS):
+        for ds in (range(len(DIR_SHAPES)) if chk.tier == "thorough" else [wi % len(DIR_SHAPES), (wi + 3) % len(DIR_SHAPES)]):
+            labels, kind, fail = run_writer(wi, ds, pre, wop)
+            nobs += len(labels)
+            chk.seen(("writer", wi, ds), nontrivial=True)
+            chk.count("observed-writer=" + kind)
+            chk.traces += 1
+            if labels != PAUSES[kind]:
+                chk.tie_broken("writer-pause-points", {"scenario": desc, "expected": PAUSES[kind], "observed": labels,
+                                                       "note": "the write no longer passes the effects of model/Crash.v "
+                                                               "(exists, encode, open/close of the temporary file, replace)"})
+            if fail:
+                chk.fail(fail[0], fail[1], {"writer_scenario": wi, "what": desc, "pre": pre, "writer_op": wop, "dshape": ds,
+                                            "how": "tools/c14.py run_writer(writer_scenario, dshape, pre, writer_op)"})
+    chk.cov["writer_pause_points_observed"] = nobs
     chk.trusted = [
         "Coq 8.16.1 kernel (coqc; vm_compute for the refutations, the example and the correspondence)",
         "hand-written model coq/theories/model/LocalFile.v, tied to local_file.py / base.py update()/commit() by this "
@@ -656,31 +927,44 @@ def run(chk):
         "checked here only on the generated payloads through an attribute-level canonical form",
         "sha256 injective on identifiers; the file system behaves as a map from names to contents",
         "threads: only interleavings at the modelled yield points (json.load, lock acquire/release, and for the "
-        "refuted earlier code os.path.exists/os.replace); CPython's scheduler and GC timing are not modelled "
-        "(gc.collect() is called after steps that drop objects)",
+        "refuted earlier code os.path.exists/os.replace); a concurrent reader is placed only at the pause points of a "
+        "write (before exists/encode/open, after open, before/after replace) whose directory states are those of "
+        "model/Crash.v; CPython's scheduler and GC timing are not modelled (gc.collect() is called after steps that "
+        "drop objects)",
         "tools/c14.py, tools/lf_common.py, tools/common.py",
     ]
     chk.assumptions = ["sha256 collision freedom", "identifiers of stored objects are not reassigned",
-                       "no other process modifies the directory"]
+                       "no other process modifies the directory", "both instances name the directory by the same path "
+                       "(up to a trailing slash)"]
     return chk.finish(level="proof",
-                      rule="seeded histories (6..20/28 steps) over 13 operations, 2 instances (one opened with a trailing "
-                           "slash), 4 identifiers drawn from 16 shapes (path separators, '..', non-ASCII, astral, line breaks, 2000 chars), 4 payload "
-                           "classes x 6 contents, generated against the live state so that most steps are applicable; "
-                           "threads: every interleaving of the yield points of get/get, get/add, add/add in 5 scenarios; "
-                           "non-trivial = at least 3 steps; distinct by op list")
+                      rule="directed scripts (rejected duplicate then commit/update of the rejected object, stale replicas, "
+                           "discard/re-open through the other instance) and seeded histories (6..20/28 steps) over 13 "
+                           "operations, 2 instances (one opened with a trailing slash) on a directory drawn from 10 shapes "
+                           "(absolute/relative to the working directory; '#', '?', '%20', ';', ':', spaces, non-ASCII), 4 "
+                           "identifiers drawn from 16 shapes (path separators, '..', non-ASCII, astral, line breaks, 2000 "
+                           "chars), 4 payload classes x 6 contents, generated against the live state so that most steps "
+                           "are applicable; threads: every interleaving of the yield points of get/get, get/add, add/add "
+                           "in 5 scenarios; 7 writer scenarios observed by readers at every pause point of the write; "
+                           "non-trivial = at least 3 steps; distinct by (op list, directory shape)")
 
 
 def replay(path):
     r = json.load(open(path))
     rp = r.get("replay") or {}
     if "ops" in rp:
-        ops, trace, fail = run_history(rp["idbase"], ops=rp["ops"])
+        ops, trace, fail = run_history(rp["idbase"], ops=rp["ops"], dshape=rp.get("dshape", 0))
         print("trace:", trace)
         print("oracle:", fail)
         return 1 if fail else 0
     if "schedule" in rp:
-        obs, fail = run_threads(0, [tuple(o) for o in rp["pre"]], [tuple(p) for p in rp["progs"]], rp["schedule"])
+        obs, fail = run_threads(0, [tuple(o) for o in rp["pre"]], [tuple(p) for p in rp["progs"]], rp["schedule"],
+                                dshape=rp.get("dshape", 0))
         print("observation:", obs)
+        print("oracle:", fail)
+        return 1 if fail else 0
+    if "writer_op" in rp:
+        labels, kind, fail = run_writer(rp["writer_scenario"], rp["dshape"], [tuple(o) for o in rp["pre"]], tuple(rp["writer_op"]))
+        print("pause points:", labels)
         print("oracle:", fail)
         return 1 if fail else 0
     print(json.dumps(r, indent=1)[:3000])
